@@ -1,6 +1,6 @@
 (* C19: the log keeps what was appended, in token order; a listing returns the entries of its window. *)
 From Coq Require Import List NArith Bool Arith String Lia Sorted.
-From DM Require Import Base.Util Model.Wal.
+From DM Require Import Base.Util Gen.Consts Model.Wal.
 Import ListNotations.
 Open Scope N_scope.
 
@@ -111,7 +111,7 @@ Qed.
 
 (* and all of them when they fit in the maximum *)
 Theorem listing_complete : forall from max l e,
-  Nat.le (List.length (filter (fun e : N * string => list_start from <=? fst e) l)) (Nat.min max 1000) ->
+  Nat.le (List.length (filter (fun e : N * string => list_start from <=? fst e) l)) (Nat.min max walMaxEntriesPerList) ->
   In e l -> list_start from <= fst e -> In e (list_entries from max l).
 Proof.
   intros from max l e Hlen He Hs. unfold list_entries. rewrite firstn_all2 by exact Hlen.
